@@ -17,6 +17,7 @@ import (
 	"fmt"
 	"math"
 	"sort"
+	"strconv"
 	"strings"
 
 	"verif/harness/mc"
@@ -288,6 +289,8 @@ type c18Case struct {
 	// Default: the model object is used as its constructor returns it, without InitModel; the parameters
 	// of the case are the documented defaults (K2P: kappa 1; F84: kappa 1, frequencies 1/4)
 	Default bool `json:"default_constructed,omitempty"`
+	// Tables: the case is the comparison of the model's data with the frozen reference tables
+	Tables bool `json:"tables,omitempty"`
 }
 
 // c18TMin is the smallest positive normal double, a legal branch length t>=0.
@@ -509,7 +512,59 @@ func c18Tasks(tier string) []mc.Task {
 		}
 	}
 	flush()
+	ts = append(ts, mc.Task{Name: "protein-tables", Run: c18CheckTables})
 	return ts
+}
+
+// c18CheckTables: the seven empirical models are data.  The exchangeabilities and frequencies that
+// goalign's data functions deliver are compared, entry by entry (relative 1e-6), with the frozen copy
+// in c18_tables.go; entries above the diagonal with those below.
+func c18CheckTables(c *mc.Ctx) {
+	for _, name := range c18ProtNames {
+		c.Eval()
+		ref := strings.Fields(c18FrozenTables[name])
+		if len(ref) != 210 {
+			c.Fatal("frozen table of %s has %d entries", name, len(ref))
+			return
+		}
+		var ex c18M
+		var pi []float64
+		if pn, msg := mc.Guard(func() { ex, pi = c18ProtData(name) }); pn {
+			c.Violation("C18/"+name+"/tables/panic", msg, c18Case{Model: name})
+			continue
+		}
+		bad := func(what string, got, want float64) {
+			c.Violation("C18/"+name+"/tables/entry-differs-from-reference", fmt.Sprintf("%s of %s is %.10g, the reference table has %.10g", what, name, got, want), c18Case{Model: name, Tables: true})
+		}
+		k := 0
+		same := func(got, want float64) bool { return math.Abs(got-want) <= 1e-6*math.Max(math.Abs(want), 1e-12) }
+	scan:
+		for i := 1; i < 20; i++ {
+			for j := 0; j < i; j++ {
+				want, _ := strconv.ParseFloat(ref[k], 64)
+				k++
+				for _, got := range []float64{ex.a[i*20+j], ex.a[j*20+i]} {
+					if !same(got, want) {
+						bad(fmt.Sprintf("exchangeability %c<->%c", c17AAs[i], c17AAs[j]), got, want)
+						break scan
+					}
+				}
+			}
+		}
+		if len(pi) != 20 {
+			bad("number of frequencies", float64(len(pi)), 20)
+			continue
+		}
+		for i := 0; i < 20; i++ {
+			want, _ := strconv.ParseFloat(ref[190+i], 64)
+			if !same(pi[i], want) {
+				bad(fmt.Sprintf("frequency of %c", c17AAs[i]), pi[i], want)
+				break
+			}
+		}
+		c.Outcome("tables:" + name + ":checked")
+		c.Nontrivial("tables|" + name)
+	}
 }
 
 // ---------------------------------------------------------------------------
@@ -1381,7 +1436,7 @@ func init() {
 	mc.Register(&mc.Prop{
 		ID:    "C18",
 		Level: "exploration",
-		Rule: "bounded-exhaustive enumeration of a parameter lattice, every instance run through the real model code. Instances: JC; K2P kappa in K = {0.1,0.5,1,2,4,10} (thorough: K = {0.1,0.25,0.5,1,2,4,10,25}); " +
+		Rule: "(the data of the seven protein models - 190 exchangeabilities and 20 frequencies each - are compared entry by entry with a frozen reference copy;) bounded-exhaustive enumeration of a parameter lattice, every instance run through the real model code. Instances: JC; K2P kappa in K = {0.1,0.5,1,2,4,10} (thorough: K = {0.1,0.25,0.5,1,2,4,10,25}); " +
 			"F81 with pi = uniform and every strictly positive point of the simplex lattice of step 0.1 (84 points; thorough: step 0.05, 968 points); F84 = those pi x K; TN93 = those pi x K x K; " +
 			"GTR = six exchangeabilities in {0.2,1,3}^6 x 7 pi (uniform, .3/.3/.2/.2, .1/.2/.3/.4, .4/.3/.2/.1, .1/.4/.4/.1, .7/.1/.1/.1, .1/.1/.1/.7; thorough: {0.2,1,3}^6 x uniform and all 84 step-0.1 points, and {0.2,0.5,1,3}^6 for those of them that are among the 7); " +
 			"7 protein matrices (dayhoff jtt mtrev lg wag hivb ab) x {model frequencies, uniform, one state at 0.525 and the others at 0.025, ramp (k+1)/210; thorough: the dominant state at each of the 20 positions, reverse ramp, alternating 0.08/0.02}. " +
@@ -1396,7 +1451,7 @@ func init() {
 			"F84: Q_ij = pi_j (1+kappa/pi_R) for A<->G, pi_j (1+kappa/pi_Y) for C<->T, pi_j for transversions (Felsenstein's F84 as in the matrix written in models/dna/f84.go and in Bio++, which the source cites)",
 			"TN93: kappa1 multiplies the purine transitions A<->G, kappa2 the pyrimidine transitions C<->T (convention of the Wikipedia page the source cites)",
 			"GTR: InitModel(d,f,b,e,a,c,...) are the exchangeabilities AC,AG,AT,CG,CT,GT as drawn in the comment of models/dna/gtr.go",
-			"protein exchangeabilities and model frequencies are read from goalign's data functions (DayoffMats ... ABMats) as parameters; they are checked for symmetry, sign and empty diagonal, not against the publications",
+			"protein exchangeabilities and model frequencies are read from goalign's data functions (DayoffMats ... ABMats) as parameters; they are checked for symmetry, sign and empty diagonal, and entry by entry (relative 1e-6) against a frozen copy of the tables of the pinned tree (c18_tables.go) - the publications are not available offline, so the pinned tables are taken to be the published ones (spot checks from memory of dayhoff.dat, jones.dat, lg.dat, wag.dat agree)",
 			"where published protein frequencies sum to 1+d, |d|<=1e-5 (20 entries rounded to 6 decimals), both scalings (exact unit rate under pi/sum(pi); -sum pi_i Q_ii = 1 with the published pi) are accepted and the case is counted as skipped_ambiguous; stationary frequencies are pi/sum(pi)",
 		},
 		Tasks: c18Tasks,
@@ -1404,6 +1459,10 @@ func init() {
 			var cs c18Case
 			if err := json.Unmarshal(payload, &cs); err != nil {
 				c.Fatal("bad payload: %v", err)
+				return
+			}
+			if cs.Tables {
+				c18CheckTables(c)
 				return
 			}
 			c18Check(c, cs)
